@@ -740,8 +740,21 @@ class Analysis:
         if bb is not None and path[0][0] != 'local':
             self.stores_log.append((bb, path, val, span))
 
-    @staticmethod
-    def _upd_coll(old, sub, val):
+    MAX_UPD_CHAIN = 12
+
+    def _upd_coll(self, old, sub, val):
+        # overwrite of the same element path replaces the previous update instead of nesting
+        if old[0] == 'upd' and old[2] == sub:
+            return ('upd', old[1], sub, val)
+        # bound the length of update chains (element writes with many distinct symbolic indices): beyond the bound the
+        # collection value is havoc'd, which is sound and keeps terms small
+        n = 0
+        x = old
+        while x[0] == 'upd' and n <= self.MAX_UPD_CHAIN:
+            x = x[1]
+            n += 1
+        if n > self.MAX_UPD_CHAIN:
+            return ('fresh', 'updchain:%d' % next(self.eng.fresh), 'more than %d element updates of one collection' % self.MAX_UPD_CHAIN)
         return ('upd', old, sub, val)
 
     # ------------------------------------------------------------------ operands / rvalues
@@ -816,7 +829,25 @@ class Analysis:
                 return ('len', a)
             return ('uf', 'unop:' + rv[1], a)
         if k == 'discr':
-            v = self.load(self.place_path(rv[1], st), st)
+            # the discriminant is not affected by stores into a variant's payload: read the enum value without composing
+            # the overlay of such sub-entries
+            p = self.place_path(rv[1], st)
+            below = st.store.below(p)
+            if below and all(len(x) > len(p) and x[len(p)][0] == 'as' for x in below):
+                v = st.store.get(p)
+                if v is None:
+                    v = None
+                    for j in range(len(p) - 1, 0, -1):
+                        pv = st.store.get(p[:j])
+                        if pv is not None:
+                            v = pv
+                            for c in p[j:]:
+                                v = self.project(v, c, st)
+                            break
+                    if v is None:
+                        v = self._pre(p)
+                return self.discr(v)
+            v = self.load(p, st)
             return self.discr(v)
         if k == 'cast':
             a = self.operand(rv[2], st)
@@ -873,6 +904,8 @@ class Analysis:
         if op == 'cf': return num(0 if v[1] == 'Continue' else 1)
         if op == 'gamma':
             return mk('gamma', v[1], self.discr(v[2]), self.discr(v[3]))
+        if op == 'upd' and v[2] and v[2][0][0] == 'as':
+            return self.discr(v[1])          # a store into a variant's payload keeps the discriminant
         if op == 'variant':
             td = self.prog.typedef(v[1].split('::')[0]) if '::' in v[1] else None
             if td is not None and td.kind == 'enum':
@@ -1460,6 +1493,17 @@ class Analysis:
             return None
         site = '%s:%s' % (self.body.fid.split('::')[-1], bb)
         pre_st = st.copy() if s.writes else st
+        _memo = {}
+        _orig_load = self.load
+
+        def cached_load(path, state):
+            if state is pre_st:
+                v = _memo.get(path)
+                if v is None:
+                    v = _orig_load(path, state)
+                    _memo[path] = v
+                return v
+            return _orig_load(path, state)
 
         def leaf(x):
             op = x[0]
@@ -1469,13 +1513,13 @@ class Analysis:
                 if r[0] == 'obj' and r[1] - 1 < len(A):
                     a = A[r[1] - 1]
                     if a[0] == 'ref':
-                        return self.load(a[1] + p[1:], pre_st)
+                        return cached_load(a[1] + p[1:], pre_st)
                     if a[0] == 'constref':
                         v = a[1]
                         for c in p[1:]:
                             v = self.project(v, c, pre_st)
                         return v
-                    return self.load((('ptr', a),) + p[1:], pre_st)
+                    return cached_load((('ptr', a),) + p[1:], pre_st)
                 if r[0] == 'val' and r[1] - 1 < len(A):
                     v = A[r[1] - 1]
                     for c in p[1:]:
@@ -1514,6 +1558,7 @@ class Analysis:
                     srcs.append(tuple(new_src))
                 return ('seq', tuple(srcs), x[2])
             return self.resimplify(x, pre_st)
+        _mm = {}
         new = []
         for p, v in s.writes.items():
             r = p[0]
@@ -1526,16 +1571,16 @@ class Analysis:
                 continue
             else:
                 tgt = (('ptr', a),) + p[1:]
-            tgt = tuple(('idx', map_term(c[1], leaf)) if c[0] == 'idx' else c for c in tgt)
-            new.append((tgt, map_term(v, leaf)))
-        ret = map_term(s.ret, leaf) if s.ret is not None else UNIT
+            tgt = tuple(('idx', map_term(c[1], leaf, _mm)) if c[0] == 'idx' else c for c in tgt)
+            new.append((tgt, map_term(v, leaf, _mm)))
+        ret = map_term(s.ret, leaf, _mm) if s.ret is not None else UNIT
         for p, v in sorted(new, key=lambda kv: len(kv[0])):
             self.write(p, v, st, bb, None)
         for g in s.guards:
             if g.kind == 'assert':
                 continue
-            gate = tuple((map_term(c, leaf), o) for c, o in g.gate)
-            self.guards.append(Guard(map_term(g.cond, leaf), g.outcome, st.pc + gate, g.span, bb, kind=g.kind,
+            gate = tuple((map_term(c, leaf, _mm), o) for c, o in g.gate)
+            self.guards.append(Guard(map_term(g.cond, leaf, _mm), g.outcome, st.pc + gate, g.span, bb, kind=g.kind,
                                      origin=g.origin or body.fid))
         return ret
 
